@@ -406,6 +406,13 @@ class Impl:
                 return f"draw-raised {type(e).__name__}"
         return "ok"
 
+    def cmd_reseat(self, ts):
+        """The caller re-assigns the machine sequences of the live schedule through the public `schedule` setter (equal content, new
+        lists): the dispatcher goes on with the schedule it shows."""
+        sch = self.dispatcher.schedule
+        sch.schedule = [list(ms) for ms in sch.schedule]
+        return "ok"
+
     def cmd_stamp(self, ts):
         """The caller annotates the dispatcher's schedule: `Schedule.metadata` is the user's dictionary (the library's solvers put
         their makespan, status and time there).  Whatever it says, it is a note - not a source of truth for anybody."""
